@@ -620,6 +620,10 @@ endmodule
 	result += "\t\treset = 1'b0;\n"
 
 	for _, rule := range sbox.Rules {
+		// Skip suspended rules
+		if rule.Suspended {
+			continue
+		}
 		if rule.Timec == simbox.TIMEC_ABS && rule.Action == simbox.ACTION_SET {
 			result += "\t\t#" + strconv.Itoa(int(rule.Tick)) + ";\n"
 			result += "\t\t" + rule.Object + " = " + rule.Extra + ";\n"
